@@ -266,6 +266,11 @@ func resetsOnAllPaths(p *eng.Prog, fn *ssa.Function, tkey, f string, depth int, 
 	}
 	for _, b := range fn.Blocks {
 		for _, in := range b.Instrs {
+			// *recv = T{…}: the whole object is replaced, every field gets the literal's value (or its zero value)
+			if st, isStore := in.(*ssa.Store); isStore && len(fn.Params) > 0 && st.Addr == ssa.Value(fn.Params[0]) && fn.Signature.Recv() != nil {
+				way[in] = true
+				continue
+			}
 			cl, ok := in.(*ssa.Call)
 			if !ok {
 				continue
